@@ -12,7 +12,7 @@ from leuvenmapmatching.util import dist_euclidean as de
 from leuvenmapmatching.util import dist_latlon as dl
 
 ID = "C20"
-CASES = {"quick": 8000, "thorough": 400000}
+CASES = {"quick": 12000, "thorough": 250000}
 MIN_CASES_PER_SHARD = 200
 CASE_TIMEOUT = 20
 RULE = ("one case = a trace of 1..10 points (planar dyadic / planar real at scales 2^-6..2^20 and offsets to 1e7 / "
@@ -155,7 +155,7 @@ def check_case(ctx, case):
 
 
 TECHNIQUE = "runtime monitoring: oracle over the returned path of every generated interpolate_path call (exact rational / vector reference)"
-LEVEL_TEXT = ("8k (quick) / 400k (thorough) generated traces and spacings per run, both metrics, incl. exact divisions, repeated points, "
+LEVEL_TEXT = ("{Q} (quick) / {T} (thorough) generated traces and spacings per run, both metrics, incl. exact divisions, repeated points, "
               "single points and time triples; each returned path is checked clause by clause (ends, originals in order, inserted points on "
               "the connection and in order, gap bound). Held-on-observed.")
 LEVEL_NOTE = "Trusted: reference geometry (refgeo). Spacings below 1/1000 of the longest gap are not generated (output size)."
